@@ -267,7 +267,7 @@ func run(c *nd.Ctx, phase string) nd.Result {
 		if phase != "rejoin" && phase != "rooms" {
 			vs.SetCanonical(false)
 		}
-		joinReturned = true
+		vs.Atomically(func() { joinReturned = true })
 		if phase == "rooms" {
 			if lp2 == "" {
 				vs.SetCanonical(false)
@@ -288,7 +288,7 @@ func run(c *nd.Ctx, phase string) nd.Result {
 			}
 			vs.SetCanonical(false)
 			if joinErr == nil && leaveErr == nil {
-				rejoinStarted = true
+				vs.Atomically(func() { rejoinStarted = true })
 				if newNick {
 					rejoinErr = ch.Join(ctxR, muc.Nick("me2"))
 				} else {
